@@ -23,6 +23,8 @@ PROPERTY = "C01"
 RULE = ("units lattice1d / lattice2d / lattice3d / lattice4d: full product of the axis alphabets (offset x width x "
         "count x scale x corner order [x names]); inside one execution ALL cell indices and the complete per-axis "
         "probe list are evaluated. units bycell1d / bycell2d: full product lattice x requested count k x variant. "
+        "unit history: full product ndim x geometry x described-before x step1 x form1 x step2 (or none) x form2 over "
+        "translate / scale / quarter-turn steps, the whole description re-checked after every step. "
         "An execution is non-trivial when at least one oracle comparison ran.")
 ASSUMPTIONS = [
     "scope: 1-D axis alphabet offsets {0,0.1,-0.3,1/3,7.7,-123.456,1e4+0.1} x widths {1,0.1,0.3,1/3,0.7,2.5} x counts "
@@ -530,6 +532,76 @@ def unit_bycell2d(ctx):
     else:
         ctx.note("Mesh(cell=):refused")
 
+# --------------------------------------------------------------------------------------------------------------------
+def unit_history(ctx):
+    """Non-initial states: a mesh that has been described once (cell, len, indices, cells, vertices, coordinate field,
+    index<->point maps - everything check_mesh reads) is transformed (translate / scale / quarter turn, in place or
+    copying, up to two steps) and described again.  Every description must be the one of the lattice the mesh has at
+    that moment (exact lattice of its current float corners; whether the corners are the right affine image is C13's
+    business), and a copying step must leave the original's description untouched."""
+    quick = ctx.tier == "quick"
+    ndim = ctx.choose("ndim", [1, 2] if quick else [1, 2, 3])
+    axes = [RAXES[1], RAXES[2], RAXES[4]][:ndim] if ctx.choose("geometry", ["plain"] if quick else ["plain", "far"]) == "plain" else \
+        [RAXES[5], RAXES[3], RAXES[6]][:ndim]
+    lo, hi, n = [], [], []
+    for (o, w, c, rs) in axes:
+        a, b = _axis(o, w, c, rs)
+        lo.append(a)
+        hi.append(b)
+        n.append(c)
+    dims = C.DIMSETS[ndim][0]
+    warm = ctx.choose("described-before", [True, False])
+    L = max(b - a for a, b in zip(lo, hi))
+    steps = [None, ("translate", tuple(([0.75 * L, -2.0 * L, 0.1 * L])[:ndim])), ("scale", 2.0, None),
+             ("scale", tuple(([0.5, 3.0, 2.0])[:ndim]), None), ("scale", 1.5, tuple([0.0] * ndim))]
+    if ndim >= 2:
+        steps += [("rotate90", dims[0], dims[1], 1), ("rotate90", dims[-1], dims[0], -1), ("rotate90", dims[0], dims[1], 2)]
+    s1 = ctx.choose("step1", steps[1:])
+    f1 = ctx.choose("form1", ["in-place", "copy"])
+    s2 = ctx.choose("step2", steps if not quick else [None, steps[1], steps[-1]])
+    f2 = ctx.choose("form2", ["in-place", "copy"]) if s2 is not None else None
+    mesh = df.Mesh(region=df.Region(p1=lo, p2=hi, dims=dims), n=n)
+    inst = ctx.key()
+    cur_n = list(n)
+
+    def describe(m, nn, tag):
+        corners = (np.array(m.region.pmin, dtype=float), np.array(m.region.pmax, dtype=float))
+        before = len(ctx.violations)
+        check_mesh(ctx, m, corners, tuple(nn), dims, inst + f";at={tag}")
+        return len(ctx.violations) == before
+
+    def apply(m, st, form):
+        inplace = form == "in-place"
+        ctx.step(1, f"{st} {form}")
+        if st[0] == "translate":
+            return m.translate(st[1], inplace=inplace)
+        if st[0] == "scale":
+            return m.scale(st[1], reference_point=st[2], inplace=inplace)
+        return m.rotate90(st[1], st[2], k=st[3], inplace=inplace)
+
+    def n_after(nn, st):
+        nn = list(nn)
+        if st[0] == "rotate90" and st[3] % 2:
+            i, j = dims.index(st[1]), dims.index(st[2])
+            nn[i], nn[j] = nn[j], nn[i]
+        return nn
+
+    if warm and not describe(mesh, cur_n, "start"):
+        return
+    for k, (st, form) in enumerate([(s1, f1), (s2, f2)]):
+        if st is None:
+            continue
+        res = apply(mesh, st, form)
+        new_n = n_after(cur_n, st)
+        if form == "copy":
+            # the original is still the lattice it was
+            if not describe(mesh, cur_n, f"original-after-copying-step{k + 1}"):
+                return
+        mesh, cur_n = res, new_n
+        if warm or k == 1 or s2 is None:
+            if not describe(mesh, cur_n, f"after-step{k + 1}"):
+                return
+
 
 def units(tier):
     return [
@@ -539,4 +611,5 @@ def units(tier):
         {"name": "lattice4d", "fn": unit_lattice4d, "bound": None},
         {"name": "bycell1d", "fn": unit_bycell1d, "bound": None},
         {"name": "bycell2d", "fn": unit_bycell2d, "bound": None},
+        {"name": "history", "fn": unit_history, "bound": None},
     ]
